@@ -310,11 +310,21 @@ func runCase(w *world, cs caseSpec, rng *rand.Rand) verdict {
 			EvidenceType:  pc.RelayEvidence,
 		}
 		root = ev.GenerateMerkleRoot(h, int64(n), evidenceStore())
-		mp, leaf = ev.GenerateMerkleProof(h, cs.I, int64(n))
+		if cs.I%2 == 1 {
+			// the proof is built from the evidence as it is read back from the evidence database after a
+			// restart (arrival order), not from the object GenerateMerkleRoot sorted in place
+			ev2 := ev
+			ev2.Proofs = append([]pc.Proof{}, w.input...)
+			ev2.NumOfProofs = int64(len(w.input))
+			mp, leaf = ev2.GenerateMerkleProof(h, cs.I, int64(n))
+		} else {
+			mp, leaf = ev.GenerateMerkleProof(h, cs.I, int64(n))
+		}
 		sorted = w.sorted
 	} else {
 		root, sorted = pc.GenerateRoot(h, append([]pc.Proof{}, w.input[:n]...))
-		mp, leaf = pc.GenerateProofs(h, append([]pc.Proof{}, sorted...), cs.I)
+		// an independent copy in arrival order: GenerateProofs orders its input itself
+		mp, leaf = pc.GenerateProofs(h, append([]pc.Proof{}, w.input[:n]...), cs.I)
 	}
 	v := verdict{Nsib: len(mp.HashRanges), KeeperLevels: int(math.Ceil(math.Log2(float64(n)))), RootUpper: root.Range.Upper}
 	v.LeafIsExpected = bytes.Equal(leaf.Bytes(), w.sorted[cs.I].Bytes())
